@@ -86,6 +86,9 @@ structure M where
   runStart : Nat := 0
   /-- sleeps are ignored (`disable_sleep`) -/
   disableSleep : Bool := false
+  /-- the SQF parser of the runtime (lexer + parser + code generation against the live registry),
+      used by `compile`; supplied by whoever builds the machine -/
+  parse : List B → Option (List Instr) := fun _ => none
 
 /-! ### diagnostics -/
 
